@@ -5,7 +5,7 @@ from purefns import pure_fns
 _EPOCH = "Z * Z * list (Z * Z * Z * Z)"
 PROP = dict(
     props="Props/C11.v",
-    tie={"modules": ["TieC11", "TiePure"],
+    tie={"modules": ["TieC11", "TiePure", "TiePoints"],
          "fns": dict({
              "w_stake": ("w_stake_run", "Z.eqb", "(Z * Z * Z * Z * Z) * Z"),
              "w_liqstake": ("w_liqstake_run", "Z.eqb", "(Z * Z * Z * Z * Z) * Z"),
@@ -18,6 +18,8 @@ PROP = dict(
              "sentinel_epoch": ("sentinel_epoch_run", "sentinel_epoch_eqb", "sentinel_epoch_in * (Z * list (Z * Z) * list (Z * Z))"),
              "liq_stake_epoch": ("liq_stake_run", "liq_stake_eqb", "liq_stake_in * liq_stake_out"),
              "cursor": ("cursor_run", "cursor_eqb", "(Z * Z * Z * Z * Z) * (list Z * Z)"),
+             "points": ("points_run", "points_eqb", "(Z * Z * Z * list (Z * Z * elect) * mom * list top) * (list pres)"),
+             "liq_update": ("liq_update_run", "liq_update_eqb", "(Z * Z * Z * Z) * (Z * list (Z * (Z * Z)) * Z)"),
              "collect": ("collect_run", "collect_eqb", "(Z * Z) * (Z * list (Z * Z) * (Z * Z))"),
              "rops": ("rops_run", "rops_eqb", "(Z * list (Z * Z * Z * Z)) * (list (Z * Z) * list (Z * Z))"),
          }, **pure_fns("NetworkZnnRewardPerEpoch", "NetworkQsrRewardPerEpoch", "PillarRewardPerMomentum",
